@@ -313,6 +313,24 @@ def run_agg(cfg):
             for k in range(m):
                 e.prove(sx.SymBool(z3.Or(*[sx.term(srt[r, k] == members3[j][r]) for j in range(m)])), "predict_sorted/each-value-is-a-member's")
                 e.prove(sx.SymBool(z3.Or(*[sx.term(srt[r, j] == members3[k][r]) for j in range(m)])), "predict_sorted/each-member-appears")
+        # history: the model is fitted again (other members, one more of them) and asked about the SAME batch object
+        m2 = m + 1
+        est.estimators_ = [SymReg(100 + k) for k in range(m2)]
+        with harness.patched(ir, numpy=_AggNP()):
+            allp2 = est.predict_all(Xq)
+            mem = [getattr(s, "p", None) for s in est.estimators_]
+            for s in est.estimators_:
+                s.p = None
+            mean2 = est.predict(Xq)
+            mem2 = [getattr(s, "p", None) for s in est.estimators_]
+        asked = all(v is not None for v in mem + mem2)
+        e.prove(asked, "after-a-refit/the-new-members-are-asked(same-batch-object)")
+        e.prove(allp2.shape == (rows, m2), "after-a-refit/shapes", detail=allp2.shape)
+        if allp2.shape == (rows, m2) and asked:
+            for r in range(rows):
+                for k in range(m2):
+                    e.prove_eq(allp2[r, k], mem[k][r], "after-a-refit/predict_all[:,k]==new-member-k(same-batch-object)")
+                e.prove_eq(mean2[r] * m2, sx.ssum([mem2[k][r] for k in range(m2)]), "after-a-refit/predict==mean-of-the-new-members")
 
     eng = sx.Engine(name=f"C17{cfg}")
     eng.explore(h)
@@ -346,6 +364,16 @@ def replay_agg(cfg, inputs, label):
         allp = est.predict_all(Xq)
     except Exception as ex:
         return True, f"raised {type(ex).__name__}: {ex}"
+    if label.startswith("after-a-refit"):
+        P2 = numpy.vstack([P + 10, P[:1] + 20])
+        est.estimators_ = [Fixed(P2[k]) for k in range(m + 1)]
+        try:
+            allp2, mean2 = est.predict_all(Xq), est.predict(Xq)
+        except Exception as ex:
+            return True, f"raised {type(ex).__name__}: {ex}"
+        if allp2.shape != (rows, m + 1) or not numpy.allclose(allp2, P2.T) or not numpy.allclose(mean2, P2.mean(axis=0)):
+            return True, dict(history="predict(Xq); members replaced as a new fit does; predict(Xq) with the same array object", predict_all=numpy.asarray(allp2).tolist(), expected=P2.T.tolist())
+        return False, "second fit's members answer"
     if not numpy.allclose(allp, P.T) or not numpy.allclose(mean, P.mean(axis=0)) or not numpy.allclose(srt, numpy.sort(P.T, axis=1)):
         return True, dict(query_dtype=cfg["qdtype"], member_predictions=P.tolist(), predict=numpy.asarray(mean).tolist(), expected_mean=P.mean(axis=0).tolist(), predict_sorted=numpy.asarray(srt).tolist())
     return False, "aggregation exact"
